@@ -5,7 +5,8 @@ CONSTANTS
   MaxArgs = 3
   ItemVals <- MCItemVals
   MaxItems = 3
+  MaxOps = 1
   Ops = {"format", "raise"}
-INVARIANTS MachineIsMeaning FormatLaws Emit
+INVARIANTS MachineIsMeaning FormatLaws EveryOpIsMeaning AgainIsSame Emit
 PROPERTY Terminates
 CHECK_DEADLOCK FALSE
